@@ -290,7 +290,7 @@ def run(ctx, build):
 
 def model_correspondence(ctx):
     """differential runs of the extracted Coq models of this property's cores against the real classes"""
-    lib.corr_modules(ctx, SPEC, ['fat_table_corr', 'fat_alloc_corr', 'fat_data_corr', 'fat_names_corr', 'fat_dir_corr'])
+    lib.corr_modules(ctx, SPEC, ['fat_table_corr', 'fat_alloc_corr', 'fat_data_corr', 'fat_names_corr', 'fat_dir_corr', 'fat_vol_corr'])
 
 
 def replay(ctx, obj):
